@@ -156,7 +156,7 @@ CHECKS['C01'] = {
     'level': 'proof',
     'explanation': 'sem_column / sem_row are written from the property statement over an abstract match result; the extracted code is proved equal to them, loop invariants spliced by ordinal.',
     'trusted': COMMON_TRUST + ['regex crate semantics behind stand-ins', 'ValueType::parse, str::trim, chrono NaiveDate/NaiveTime construction as uninterpreted functions'],
-    'unproved': ['timestamp month-name branch', 'regex crate (matching)', 'vx_pattern_refs: the closure that borrows (name, text, mode) triples for TableDefinition::new is a stand-in (tuple-pattern closure returning borrows)', 'the expression parser behind DEFAULT literals (stand-ins)'],
+    'unproved': ['regex crate (matching)', 'vx_pattern_refs: the closure that borrows (name, text, mode) triples for TableDefinition::new is a stand-in (tuple-pattern closure returning borrows)', 'the expression parser behind DEFAULT literals (stand-ins)'],
 }
 CHECKS['C02'] = {
     'grid': {'sets': ['c02'], 'bound': '20 JSON-path column definitions (every scalar type, nested paths, array indexes, CONVERT, DEFAULT, an array column; a regex column beside them) x 30 lines (nesting, whitespace around the document, wrong-typed leaves, numbers beyond i64 / f64, duplicate keys, arrays, empty containers, non-JSON, truncated JSON); NOT NULL / DEFAULT interplay on 6 lines (about 600 cases), oracle = serde_json parse of the line + the conversion rules of the statement'},
